@@ -1,5 +1,6 @@
 import Driver.Util
 import CtyModel.JsonVal
+import CtyModel.JsonValSpec
 open CtyModel CtyModel.JsonVal
 
 /-- oracle table of a case: `(tbl (nfc (raw nfc)*) (hk (ety payload id hex)*))` -/
@@ -40,6 +41,15 @@ def handleJsonVal : Handler := fun op args =>
     let env ← decEnv tbl
     let j ← Json.ofSexp j
     pure (resTag (fun v => toString v.toSexp) (simpleUnmarshal env j))
+  | "json.applies", [tbl, v, t] => do
+    -- do the hypotheses of C15.roundtrip_partial hold?  (hypotheses, set-free, exact)
+    let env ← decEnv tbl
+    let v ← Value.ofSexp v; let t ← Ty.ofSexp t
+    pure s!"{Sexp.encBool (rtHypsCore env v t)} {Sexp.encBool (setFree v.ty)} {Sexp.encBool (exact t v.ty v.v)}"
+  | "json.docok", [tbl, j] => do
+    let env ← decEnv tbl
+    let j ← Json.ofSexp j
+    pure (toString (Sexp.encBool (docOK env j)))
   | "json.parsenum", [s] => do
     let s ← Sexp.decStr s
     pure (resTag (fun n => toString n.toSexp) (Num.parse512 s))
